@@ -119,6 +119,10 @@ impl<const N: usize> Exec<N> {
                 if !self.targetable(*i) {
                     return Ok(Applied::Skipped);
                 }
+                self.refresh_hints(*i);
+                for (f, _) in self.view.followers(*i) {
+                    self.refresh_hints(f);
+                }
                 let inst = self.view.insts[*i].as_ref().unwrap();
                 // C05's precondition: an absent id at or above the allocator position remains.
                 // Both the model's position and the hook's must agree that it does.
@@ -220,7 +224,12 @@ impl<const N: usize> Exec<N> {
         // C10, immediate: the copy answers every query as the original does
         let (a, b) = (self.deep(src)?, self.deep(dst)?);
         if let Some(d) = a.diff(&b) {
-            return fail("clone.sweep-differs", clauses::C10, format!("right after clone(): {d}"));
+            let owners: clauses::Owners = match a.diff_kind(&b) {
+                Some("keys") => &["C10", "C01"],
+                Some("edges" | "data") => &["C10", "C03"],
+                _ => clauses::C10,
+            };
+            return fail("clone.sweep-differs", owners, format!("right after clone(): {d}"));
         }
         self.refresh_hints(dst);
         if self.view.insts[dst].as_ref().unwrap().next_v != src_next {
@@ -461,6 +470,7 @@ impl<const N: usize> Exec<N> {
                     oplog: Vec::new(),
                 });
                 self.stats.bump("damaged.loaded_ok");
+                self.exercise_poisoned(dst);
                 Ok(Applied::Done)
             }
             (OnDisk::Unknown, Ok(Err(_))) => {
@@ -540,9 +550,15 @@ impl<const N: usize> Exec<N> {
                 // C08, immediate round trip: every query answers as the saved graph did
                 let obs = self.deep(dst)?;
                 if let Some(d) = st.obs.diff(&obs) {
+                    // the reloaded graph is part of the histories C01 and C03 quantify over (DESIGN §3)
+                    let owners: clauses::Owners = match st.obs.diff_kind(&obs) {
+                        Some("keys") => &["C08", "C01"],
+                        Some("edges" | "data") => &["C08", "C03"],
+                        _ => clauses::C08,
+                    };
                     return fail(
                         "reload.sweep-differs",
-                        clauses::C08,
+                        owners,
                         format!("saved graph vs load(save(g)): {d}"),
                     );
                 }
@@ -587,6 +603,45 @@ impl<const N: usize> Exec<N> {
                 Ok(Applied::Done)
             }
         }
+    }
+
+    /// A graph about which nothing is known (it came out of a damaged image): call every read-only
+    /// query and, on a copy, every read, each caught separately. Only the memory observer judges.
+    pub(crate) fn exercise_poisoned(&mut self, i: usize) {
+        let Some(g) = self.gs[i].as_ref() else { return };
+        let keys = guarded(|| g.keys()).unwrap_or_default();
+        let mut calls = 0_u64;
+        let mut panics = 0_u64;
+        let mut run = |r: Result<(), Caught>| {
+            calls += 1;
+            if r.is_err() {
+                panics += 1;
+            }
+        };
+        run(guarded(|| drop(format!("{g:?}"))));
+        run(guarded(|| drop(g.to_xml())));
+        run(guarded(|| drop(g.to_dot())));
+        for v in keys.iter().take(64) {
+            run(guarded(|| drop(g.kids(*v).count())));
+            run(guarded(|| drop(g.v_print(*v))));
+            run(guarded(|| drop(g.inspect(*v))));
+        }
+        if let Ok(mut c) = guarded(|| g.clone()) {
+            for v in keys.iter().take(64) {
+                run(guarded(|| {
+                    if let Some(h) = c.data(*v) {
+                        let _ = h.print();
+                        let _ = h.to_vec();
+                        let _ = h.len();
+                    }
+                }));
+            }
+            run(guarded(|| drop(c.save(Path::new("/sim/poisoned-copy.sodg")))));
+            let _ = self.disk.borrow_mut().files.remove("/sim/poisoned-copy.sodg");
+            run(guarded(move || drop(c)));
+        }
+        self.stats.add("poisoned.exercise_calls", calls);
+        self.stats.add("poisoned.exercise_panics", panics);
     }
 
     /// The process dies. Whatever was not synced may be reduced by the power-loss
@@ -675,7 +730,10 @@ impl<const N: usize> Exec<N> {
         }
         let name = path_name(path);
         let image: Vec<u8> = self.disk.borrow().content(&name).unwrap().to_vec();
-        let scratch = "/sim/cut.sodg";
+        // the cut happens in place, at the path save() wrote, as a crash during the write would
+        // leave it (whatever else save() keeps next to the file stays where it is)
+        let original = self.disk.borrow().files.get(&name).cloned().unwrap();
+        let scratch = name.as_str();
         let cuts: Vec<usize> = if sample.is_empty() {
             (0..image.len()).collect()
         } else {
@@ -695,6 +753,9 @@ impl<const N: usize> Exec<N> {
             self.disk.borrow_mut().set_content(scratch, image[..k].to_vec());
             let r = guarded(|| Sodg::<N>::load(Path::new(scratch)));
             self.stats.bump("cut.points");
+            if !matches!(r, Ok(Err(_))) {
+                self.disk.borrow_mut().files.insert(name.clone(), original.clone());
+            }
             match r {
                 Ok(Err(_)) => {}
                 Ok(Ok(g)) => {
@@ -714,7 +775,7 @@ impl<const N: usize> Exec<N> {
                 }
             }
         }
-        let _ = self.disk.borrow_mut().files.remove(scratch);
+        self.disk.borrow_mut().files.insert(name.clone(), original);
         self.hash_step(s, "");
         Ok(Applied::Done)
     }
